@@ -170,10 +170,13 @@ class Scenario:
     """cmd_frame: text of the command; gw: id the gateway reports; wait: wait_for_reply;
     frames: packets (frame text) that arrive, in order, after the first transmission."""
 
-    __slots__ = ("cmd_frame", "gw", "wait", "frames", "ret", "err", "txh", "rxh", "hdrs", "loop_exc", "srcs", "dsts")
+    __slots__ = ("cmd_frame", "gw", "wait", "frames", "ret", "err", "txh", "rxh", "hdrs", "loop_exc", "srcs", "dsts", "flt")
 
-    def __init__(self, cmd_frame: str, gw: str, wait: bool, frames: list[str]) -> None:
+    def __init__(self, cmd_frame: str, gw: str, wait: bool, frames: list[str], flt: str = "") -> None:
         self.cmd_frame, self.gw, self.wait, self.frames = cmd_frame, gw, wait, frames
+        # "known": the protocol enforces a known list that names the devices of the exchange but not the gateway
+        # (the active gateway is exempt): correlation must not depend on the receive-side device filter
+        self.flt = flt
         self.ret = -1
         self.err = ""
         self.txh: str | None = None
@@ -191,7 +194,13 @@ async def _run_one(sc: Scenario) -> None:
     from ramses_tx.typing import QosParams
 
     loop = asyncio.get_running_loop()
-    proto = PortProtocol(lambda msg: None, disable_qos=False)
+    if sc.flt in ("known", "known+nogw"):
+        c0 = Command(sc.cmd_frame)
+        ids = {i for i in (c0.src.id, c0.dst.id) if i[:2] not in ("18", "63", "--")}
+        proto = PortProtocol(lambda msg: None, disable_qos=False, enforce_include_list=True,
+                             include_list={i: {} for i in sorted(ids)}, exclude_list={})
+    else:
+        proto = PortProtocol(lambda msg: None, disable_qos=False)
     pkts: list[Any] = []
     n_tx = [0]
 
@@ -206,6 +215,9 @@ async def _run_one(sc: Scenario) -> None:
             loop.call_later(0.01 * (k + 1), proto.pkt_received, pk)
 
     t = FakeTransport(proto, loop, gwy_id=sc.gw, on_write=on_write)
+    if sc.flt == "known+nogw":   # an HGI80-like gateway: the transport never learns (reports) its id
+        from ramses_tx.const import SZ_ACTIVE_HGI
+        t._info.pop(SZ_ACTIVE_HGI, None)
     try:  # a frame the packet layer itself refuses is a generator miss, not an observation
         for fr in sc.frames:
             pkts.append(t.make_pkt(fr))
